@@ -21,10 +21,12 @@ def _probe(ctx):
 SCANNERS = {
     "catch_unwind": ("swallow_catch_unwind", lambda ctx, f, b: I.marked_calls(b, I.SWALLOW_MARKS)),
     "resume_unwind": ("swallow_resume_unwind", lambda ctx, f, b: I.marked_calls(b, I.SWALLOW_MARKS)),
+    "thread_handoff": ("swallow_thread", lambda ctx, f, b: I.thread_handoffs(b)),
     "panic_hook": ("swallow_hook", lambda ctx, f, b: I.marked_calls(b, I.SWALLOW_MARKS)),
     "forget_guard": ("leak_guard_forget", lambda ctx, f, b: R.guard_leaks(b)),
     "manually_drop_guard": ("leak_guard_manually_drop", lambda ctx, f, b: R.guard_leaks(b)),
     "leak_guard": ("leak_guard_box", lambda ctx, f, b: R.guard_leaks(b)),
+    "launder_guard": ("launder_guard", lambda ctx, f, b: [h for h in R.guard_launder(f)[0] if h[0].qname.startswith(PROBE_MOD + "launder_guard")]),
     "num_threads": ("cap_threads", lambda ctx, f, b: [(bb, Callee(t["func"])) for bb, t in b.normal_calls()
                                                       if Callee(t["func"]).name == "num_threads" and Callee(t["func"]).crate in ("rayon", "rayon_core")]),
     "hash_iteration": ("hash_iteration", lambda ctx, f, b: I.hash_iterations(b)),
@@ -39,7 +41,7 @@ SCANNERS = {
                                                     if "RwLock" in Callee(t["func"]).path and Callee(t["func"]).name == "write"]),
     "partial_traversals": ("rev_loop", lambda ctx, f, b: [t for t in traversals(ctx.program(f), b) if not t.full]),
 }
-MIN_HITS = {"panic_constructs": 4, "partial_traversals": 3, "hash_iteration": 2, "order_on_ids": 2, "env_calls": 3}
+MIN_HITS = {"launder_guard": 3, "panic_constructs": 4, "partial_traversals": 3, "hash_iteration": 2, "order_on_ids": 2, "env_calls": 3}
 
 
 def check(ctx, report, rule, names):
